@@ -207,7 +207,44 @@ pub fn main(args: &crate::Args) {
             rep.violation(&format!("{k}:{name}"), &format!("{w} [{name}, limit {}, history {} -> {}]", j.limit, j.history, r.outcome), &json!({"item": name, "stream_hex": hex(&streams[j.item].1[..streams[j.item].1.len().min(20000)]), "limit": j.limit, "history": j.history}));
         }
     }
-    rep.rule = format!("{} streams (jxlw corpus incl. multi-group with local trees, animations, layers; {} hostile fuzz regressions): the allocation profile of an unlimited decode+render is recorded (cfg-gated log of every tracked attempt) and the limit L takes EVERY value at which an outcome can change (outstanding+request of every attempt, -1 and +1; 0; 1; ample){} x 5 call histories (render every keyframe; render each twice in reverse; small region then full; fail, expand the limit, re-request the region, render; loading frame then render), all ending with dropping every object; oracle: no panic, tracked high-water <= L, an Ok render equals the unlimited render (a refused allocation must not be swallowed), after dropping everything outstanding = 0 and the full budget can be shrunk away. Non-trivial = at least one call returned an error; distinct by (stream, limit, history).", streams.len(), streams.iter().filter(|s| s.0.starts_with("fuzz:")).count(), if quick { " (quick: at most ~120 limits per stream, evenly spaced over the sorted set)" } else { "" });
+    // accounting arithmetic of the tracker itself, against sizes computed here: for element types whose size, alignment
+    // and padding differ, every count around a limit must be admitted / refused by exactly size_of::<T>() * count bytes
+    {
+        fn probe<T>(name: &str, rep: &mut Report) {
+            let sz = std::mem::size_of::<T>();
+            for count in [0usize, 1, 2, 3, 7, 64, 1000, 65537] {
+                let need = sz * count;
+                for (limit, must_fit) in [(need, true), (need.saturating_sub(1), need == 0), (need + 1, true), (need / 2, need / 2 >= need)] {
+                    rep.eval();
+                    let t = jxl_grid::AllocTracker::with_limit(limit);
+                    let r = t.alloc::<T>(count);
+                    let ok = r.is_ok();
+                    let left_during = t.verif_bytes_left();
+                    drop(r);
+                    let left_after = t.verif_bytes_left();
+                    if ok != must_fit {
+                        rep.violation(&format!("tracker-arithmetic:{name}"), &format!("alloc::<{name}>({count}) needs {need} bytes (size_of = {sz}); with a budget of {limit} it {}", if ok { "was admitted" } else { "was refused" }), &serde_json::json!({"type": name, "count": count, "limit": limit}));
+                    } else if ok && left_during != limit - need {
+                        rep.violation(&format!("tracker-charge:{name}"), &format!("alloc::<{name}>({count}) charged {} bytes instead of {need}", limit - left_during), &serde_json::json!({"type": name, "count": count, "limit": limit}));
+                    } else if left_after != limit {
+                        rep.violation(&format!("tracker-release:{name}"), &format!("after dropping alloc::<{name}>({count}) the budget is {left_after}, not {limit}"), &serde_json::json!({"type": name, "count": count, "limit": limit}));
+                    } else {
+                        rep.outcome("tracker-arithmetic-ok");
+                    }
+                }
+            }
+        }
+        probe::<u8>("u8", &mut rep);
+        probe::<i16>("i16", &mut rep);
+        probe::<f32>("f32", &mut rep);
+        probe::<u64>("u64", &mut rep);
+        probe::<[u8; 3]>("[u8;3]", &mut rep);
+        probe::<[u16; 5]>("[u16;5]", &mut rep);
+        probe::<[f32; 4]>("[f32;4]", &mut rep);
+        probe::<(u32, u8)>("(u32,u8)", &mut rep);
+        probe::<[u64; 3]>("[u64;3]", &mut rep);
+    }
+    rep.rule = format!("{} streams (jxlw corpus incl. multi-group with local trees, animations, layers; {} hostile fuzz regressions): the allocation profile of an unlimited decode+render is recorded (cfg-gated log of every tracked attempt) and the limit L takes EVERY value at which an outcome can change (outstanding+request of every attempt, -1 and +1; 0; 1; ample){} x 5 call histories (render every keyframe; render each twice in reverse; small region then full; fail, expand the limit, re-request the region, render; loading frame then render), all ending with dropping every object; oracle: no panic, tracked high-water <= L, an Ok render equals the unlimited render (a refused allocation must not be swallowed), after dropping everything outstanding = 0 and the full budget can be shrunk away. Plus the tracker's own arithmetic: alloc::<T>(count) for 9 element types (size != alignment, padded tuples) x 8 counts x limits (exact, -1, +1, half) must be admitted / refused, charged and released by exactly size_of::<T>() * count bytes. Non-trivial = at least one call returned an error; distinct by (stream, limit, history).", streams.len(), streams.iter().filter(|s| s.0.starts_with("fuzz:")).count(), if quick { " (quick: at most ~120 limits per stream, evenly spaced over the sorted set)" } else { "" });
     rep.sample(json!({"item": streams[1].0, "limits": preps[1].limits.iter().take(12).collect::<Vec<_>>(), "histories": N_HIST}));
     rep.sample(json!({"item": streams.last().unwrap().0, "limits": preps.last().unwrap().limits.len()}));
     rep.extra.insert("limits_per_stream".into(), json!(streams.iter().zip(&preps).map(|(s, p)| (s.0.clone(), p.limits.len())).collect::<std::collections::BTreeMap<_, _>>()));
